@@ -1,9 +1,13 @@
 pub mod c01;
 pub mod c07;
+pub mod c08;
 pub mod c09;
 pub mod c10;
 pub mod c11;
 pub mod c13;
+pub mod c20;
+#[cfg(feature = "sched")]
+pub mod shuttle_rt;
 pub mod common;
 
 use crate::harness::{Stats, Tier, Violation};
@@ -177,8 +181,10 @@ macro_rules! dispatch {
 dispatch! {
     "c01" => c01, "C01";
     "c07" => c07, "C07";
+    "c08" => c08, "C08";
     "c09" => c09, "C09";
     "c10" => c10, "C10";
     "c11" => c11, "C11";
     "c13" => c13, "C13";
+    "c20" => c20, "C20";
 }
